@@ -516,10 +516,13 @@ BootViol(ev) ==
            /\ ev.tasks_to_hold = env.prescal.tasks_to_hold /\ ev.hold_point = env.prescal.hold_point
            /\ \A i \in DOMAIN env.prestop : i \in SyncIds(ev) => SyncRec(ev, i).held = env.prestop[i].held)
   \cup Chk("C08_FlowCounterSurvives", ev.flow_counter >= env.flowctr)
+  \* a stop task that has not finished yet is still in force after a restart (also a second one, also after a reload)
+  \cup Chk("C43_StopTaskKeptAcrossRestart", env.prescal.stop_task # "none" => ev.stop_task = env.prescal.stop_task)
 BootCov(ev) == Cov("C19_RestoreProjection", ev.restart /\ env.downkind = "stop" /\ DOMAIN env.prestop # {})
   \cup Cov("C19_RestorePreparing", ev.restart /\ env.downkind = "stop" /\ \E i \in DOMAIN env.prestop : env.prestop[i].st = "preparing")
   \cup Cov("C06_PersistAcrossRestart", ev.restart /\ env.downkind = "stop"
             /\ (env.prescal.tasks_to_hold # {} \/ env.prescal.hold_point # NoPoint))
+  \cup Cov("C43_StopTaskKeptAcrossRestart", ev.restart /\ env.downkind = "stop" /\ env.prescal.stop_task # "none")
 \* first iteration after the restart poll has been answered
 RestoredViol(ev) ==
   IF env.downkind # "stop" THEN {}
@@ -861,10 +864,10 @@ Violations(ev) ==
                                          \/ SetStopQuiescent(ev)))
     [] ev.e = "stall" -> Chk("C03_StallIsReal", StallViol(ev))
                          \* a runahead-limited task that lies within the limit of the present pool is about to be
-                         \* released and may run: the workflow is not stalled
+                         \* released and, its prerequisites being satisfied, will run: the workflow is not stalled
                          \cup Chk("C03_StallIsReal_RunaheadReleasable",
                                   \A i \in SyncIds(ev) : LET s == SyncRec(ev, i) IN
-                                     ~(s.st = "waiting" /\ s.rh /\ ~s.held /\ Pt(i) <= StopPt
+                                     ~(s.st = "waiting" /\ s.rh /\ ~s.held /\ s.preok /\ s.xok /\ Pt(i) <= StopPt
                                        /\ Pt(i) <= RunaheadLimit(W, Min({Pt(j) : j \in SyncIds(ev)}), ev.maxfut, StopPt)))
     [] ev.e = "end" -> EndViol(ev)
     [] ev.e = "boot" -> BootViol(ev) \cup BootStopViol(ev)
